@@ -19,6 +19,7 @@ mod c09;
 mod c20;
 mod c12;
 mod c05;
+mod c04;
 mod common;
 mod dict;
 mod world;
@@ -65,6 +66,7 @@ fn main() {
         "C20" => c20::run(&mut run),
         "C12" => c12::run(&mut run),
         "C05" => c05::run(&mut run),
+        "C04" => c04::run(&mut run),
         _ => { eprintln!("unknown property {}", prop); std::process::exit(2); }
     }
     run.finish();
